@@ -224,6 +224,7 @@ def corpus_designs(big):
 
 def _corpus_families(big):
     out = _Families()
+    C2f = _sf(0, ["r", "g"])
     out.mark()
     c, t = _sf(0, ["r", "g"]), _sf(1, ["x", "y"])
     ns = range(2, 8) if big else (4, 5, 6)
@@ -314,6 +315,25 @@ def _corpus_families(big):
                         "cs": [{"k": "MinimumTrials", "n": 4}]}})
             out.append({"factors": [col, src, wf], "block": {"k": "cross", "design": [0, 1, 2], "crossing": [0], "rcc": True,
                         "cs": [{"k": "MinimumTrials", "n": 4}, {"k": "AtMostKInARow", "n": 2, "f": 2, "l": 0}]}})
+    out.mark()
+    # uncrossed independent factor with excluded levels and a partial last chunk (RandomGen's leftover round)
+    c3u = _sf(1, ["c1", "c2", "c3"])
+    for n in (3, 5):
+        for ex in ([2], [0, 2]):
+            out.append({"factors": [C2f, c3u], "block": {"k": "cross", "design": [0, 1], "crossing": [0], "rcc": True,
+                        "cs": [{"k": "MinimumTrials", "n": n}] + [{"k": "Exclude", "f": 1, "l": l} for l in ex]}})
+            out.append({"factors": [C2f, c3u], "block": {"k": "repeat", "cs": [{"k": "MinimumTrials", "n": n}],
+                        "b": {"k": "cross", "design": [0, 1], "crossing": [0], "rcc": True, "cs": [{"k": "Exclude", "f": 1, "l": l} for l in ex]}}})
+    out.mark()
+    # block-given constraints on a weighted factor outside the crossing, under Repeat (constraint objects are rewritten by desugaring)
+    tone = _sf(1, ["hi", "lo"], [2, 1])
+    for idx in (0, 1, -1):
+        for reps in (2, 3):
+            out.append({"factors": [C2f, tone], "block": {"k": "repeat", "cs": [{"k": "MinimumTrials", "n": 2 * reps}],
+                        "b": {"k": "cross", "design": [0, 1], "crossing": [0], "rcc": True, "cs": [{"k": "Pin", "idx": idx, "f": 1, "l": 1}]}}})
+    for kind in ("AtMostKInARow", "ExactlyK"):
+        out.append({"factors": [C2f, tone], "block": {"k": "repeat", "cs": [{"k": "MinimumTrials", "n": 4}],
+                    "b": {"k": "cross", "design": [0, 1], "crossing": [0], "rcc": True, "cs": [{"k": kind, "n": 1, "f": 1, "l": 1}]}}})
     out.mark()
     # block-scoped vs combinator-scoped run-length constraints under Repeat; Nest
     for k in (1, 2):
